@@ -4,7 +4,7 @@ from __future__ import annotations
 import ast
 
 from engine.defuse import value_sources
-from engine.flow import dominating_guards, falls_through, reachable_from_entry, returns_of
+from engine.flow import dominating_guards, expand_aliases, falls_through, reachable_from_entry, returns_of
 from .links import check_links
 
 META = {
@@ -235,7 +235,8 @@ def check(ctx):
                            "the method written is %s, not the method of the encrypt result ('best' would be stored unresolved)"
                            % ast.unparse(val), node=r)
                 if isinstance(k, ast.Constant) and k.value == "ciphertext":
-                    good = any(isinstance(x, ast.Attribute) and x.attr == "ciphertext" for x in ast.walk(val))
+                    cands = [val] + ([pl for k_, pl in value_sources(tb, val, r) if k_ == "expr" and isinstance(pl, ast.AST)] if isinstance(val, ast.Name) else [])
+                    good = any(isinstance(x, ast.Attribute) and x.attr == "ciphertext" for c_ in cands for x in ast.walk(c_))
                     ctx.ob("ciphertext.from-result", tb, val, good, "ciphertext of the encrypt result" if good else
                            "the stored ciphertext is not taken from the encrypt result", node=r)
 
@@ -337,9 +338,9 @@ def check(ctx):
                 (n.kind != "call" or any(t.kind == "ctor" for t in an.targets(f, n)))
             if not uses_default or n.kind == "assign" and isinstance(n.ast.value, ast.Call):
                 continue
-            dg = dominating_guards(an, f, n)
-            no_parent = any((not tr) and isinstance(t.ast, ast.Attribute) and t.ast.attr == "_parent" for t, tr in dg)
-            no_own = any((not tr) and isinstance(t.ast, ast.Attribute) and "keyfile" in t.ast.attr for t, tr in dg)
+            dg = [(expand_aliases(f, t.ast, t), tr) for t, tr in dominating_guards(an, f, n)]
+            no_parent = any((not tr) and isinstance(e_, ast.Attribute) and e_.attr == "_parent" for e_, tr in dg)
+            no_own = any((not tr) and isinstance(e_, ast.Attribute) and "keyfile" in e_.attr for e_, tr in dg)
             ctx.ob("keyfile.default-last", f, n.ast, no_parent and no_own,
                    "the default key file is used only when neither this configuration nor any ancestor names one" if no_parent and no_own else
                    "the default key file can be chosen although %s" % ("an ancestor exists" if not no_parent else "this configuration names its own"), node=n)
@@ -353,8 +354,8 @@ def check(ctx):
         for x in climbs:
             nn = [n for n in g.nodes if n.kind == "attr" and n.ast is x]
             if nn:
-                dg = dominating_guards(an, f, nn[0])
-                own_first = any((not tr) and isinstance(t.ast, ast.Attribute) and "keyfile" in t.ast.attr for t, tr in dg)
+                dg = [(expand_aliases(f, t.ast, t), tr) for t, tr in dominating_guards(an, f, nn[0])]
+                own_first = any((not tr) and isinstance(e_, ast.Attribute) and "keyfile" in e_.attr for e_, tr in dg)
                 ctx.ob("keyfile.own-before-parent", f, x, own_first,
                        "the parent is consulted only when this configuration has no key file of its own" if own_first else
                        "the parent's key file can win over this configuration's own", node=nn[0])
